@@ -79,6 +79,15 @@ CLAIMED = {
             "function or stored on shared state; the ephemeral key is generated per recipient on its curve; `random` only selects keys. "
             "Not decided: statistical distinctness (no constant, counter, cache, parameter or field can reach the sinks instead).",
             "secrets / os.urandom / pyca generators are strong sources", "5/C18"),
+    "C12": ("static analysis: folded private-flag tables vs RFC, CFG structure of the as_dict filter, who-may-call rule on key-material "
+            "accessors in token modules, local derivation closure of every header sink, branch table of the PEM/DER exporters",
+            "Decides: the private flags of all four value registries equal {d,p,q,dp,dq,qi,oth,k}; BaseKey.as_dict returns a copy, raises for a "
+            "private export of a public key before any return, and on the private=False path deletes every registry-private member (no key class "
+            "overrides it); the three export_public_key bodies touch no private accessor or member; the epk header is as_dict(private=False); "
+            "KeySet.as_dict passes the flag to every key; token modules never read raw_value/private_key/dict_value/as_pem... and the 7 add_header "
+            "values derive only from cipher outputs, CSPRNG values, kids or public exports; dump_pem_key / as_bytes map private False->public. "
+            "Not decided: absence of private octets in raw/hex/base64 form inside library outputs (value level).",
+            "pyca public_bytes / public_numbers expose no private parameter", "5/C12"),
 }
 
 NOT_YET = "check not built yet (build in progress; see DESIGN.md section 5 for the planned rules)"
